@@ -1456,10 +1456,12 @@ package log
 //@   ensures[C19:failure-keeps-state] result != nil ==> atomPtr[c.file] == old(atomPtr[c.file])
 
 // (the two descriptor cells never hold the same file; whatever they hold existed before the call)
-//@ spec fun rfaCells(c *RollingFileAppender) bool = isold(atomPtr[c.file]) && isold(atomPtr[c.oldFile]) && (atomPtr[c.file] == nil || atomPtr[c.file] != atomPtr[c.oldFile])
+//@ spec fun rfaCells(c *RollingFileAppender) bool = isold(atomPtr[c.file]) && isold(atomPtr[c.oldFile])
+//@ spec fun rfaDistinct(c *RollingFileAppender) bool = atomPtr[c.file] == nil || atomPtr[c.file] != atomPtr[c.oldFile]
 
 //@ func (*RollingFileAppender).rotate
 //@   requires c != nil && 0 <= c.MaxAge && c.MaxAge <= 2562047 && rfaCells(c)
+//@   maintains[C05,C19:current-and-old-file-differ] rfaDistinct(c)
 //@   let t0 = atomI64[c.currTime]
 //@   let f0 = atomPtr[c.file]
 //@   let o0 = atomPtr[c.oldFile]
@@ -1474,6 +1476,7 @@ package log
 
 //@ func (*RollingFileAppender).Write
 //@   requires c != nil && 0 <= c.MaxAge && c.MaxAge <= 2562047 && rfaCells(c)
+//@   maintains[C05,C19:current-and-old-file-differ] rfaDistinct(c)
 //@   modifies atomPtr[c.file], atomPtr[c.oldFile], atomI64[c.currTime], fdOpen, fdFlags, fdPath, lastNow, spawned, sink, interfered
 //@   nopanic[C19]
 //@   ensures[C13,C20:one-write-to-the-current-file] atomPtr[c.file] != nil ==> sink == tsnoc(old(sink), 3, atomPtr[c.file], sref(b), len(b), content(b))
@@ -1481,6 +1484,7 @@ package log
 
 //@ func (*RollingFileAppender).Append
 //@   requires c != nil && c.Layout != nil && e != nil && 0 <= c.MaxAge && c.MaxAge <= 2562047 && rfaCells(c)
+//@   maintains[C05,C19:current-and-old-file-differ] rfaDistinct(c)
 //@   modifies atomPtr[c.file], atomPtr[c.oldFile], atomI64[c.currTime], fdOpen, fdFlags, fdPath, lastNow, spawned, sink, lastBytes, interfered
 //@   ensures[C03,C13,C20:one-line] atomPtr[c.file] != nil ==> sink == tsnoc(old(sink), 3, atomPtr[c.file], sref(lastBytes), len(lastBytes), content(lastBytes))
 
